@@ -892,6 +892,7 @@ def check_c02(rep, tier, seed, wd, replay):
         ops = [["info"], ["messages"]]
         for a in d["attachments"]:
             ops.append(["getatt", str(a["offset"])])
+            ops.append(["getatt", str(a["offset"]), "rev"])       # ParsedCRC before ComputedCRC
         for m in d["metadata"]:
             ops.append(["getmd", str(m["offset"])])
         base = {"file": f["file"], "base": f}
